@@ -105,6 +105,11 @@ func genC09(t *rapid.T) c09Case {
 		c.Docs = append(c.Docs, c.Docs[0]+pick(t, []string{"\n{\"@id\":\"http://ex.org/second-document\"}", " ]", "\n# a log line", "}\n", " trailing words", "\n[]", ","}, "trailing"))
 		c.DocKinds = append(c.DocKinds, "trailing-content")
 	}
+	// long texts of which the reader consumes only a part (early syntax error, long trailing content)
+	if rapid.IntRange(0, 2).Draw(t, "abandonedInput") == 0 {
+		c.Docs = append(c.Docs, genAbandonedInput(t, c.Docs[0]))
+		c.DocKinds = append(c.DocKinds, "long-text-read-in-part")
+	}
 	// two documents of the pool that agree in length and in a 32-bit checksum (trailing white space does it):
 	// whatever a compiled profile keeps between calls must be keyed by the document, not by a fingerprint of it
 	if len(c.Docs) >= 2 && c.DocKinds[0] == "graph" && c.DocKinds[1] == "graph" && rapid.IntRange(0, 3).Draw(t, "collidingDocs") == 0 {
